@@ -451,6 +451,35 @@ func V2Chain(class int) Action {
 	}}
 }
 
+// V2Chain2: like V2Chain, but the second transaction spends the ephemeral output TOGETHER with an ordinary input.
+func V2Chain2(class int) Action {
+	return Action{fmt.Sprintf("v2chain2(class=%d)", class), func(bc *BlockCtx) bool {
+		if !bc.V2OK() {
+			return false
+		}
+		w := bc.W
+		p, ok := bc.PickSC(func(c int) bool { return c == class }, types.Siacoins(10))
+		if !ok {
+			return false
+		}
+		bc.Used[types.Hash256(p.ID)] = true
+		q, ok := bc.PickSC(func(c int) bool { return c == class }, types.Siacoins(10))
+		if !ok {
+			delete(bc.Used, types.Hash256(p.ID))
+			return false
+		}
+		bc.Used[types.Hash256(q.ID)] = true
+		t1 := types.V2Transaction{SiacoinInputs: []types.V2SiacoinInput{{Parent: p}},
+			SiacoinOutputs: []types.SiacoinOutput{{Value: p.SiacoinOutput.Value, Address: w.Keys.Addr(class)}}}
+		w.SignV2(&t1)
+		t2 := types.V2Transaction{SiacoinInputs: []types.V2SiacoinInput{{Parent: t1.EphemeralSiacoinOutput(0)}, {Parent: q}},
+			SiacoinOutputs: []types.SiacoinOutput{{Value: p.SiacoinOutput.Value.Add(q.SiacoinOutput.Value).Sub(Fee), Address: w.Keys.Addr(AddrV2)}}, MinerFee: Fee}
+		w.SignV2(&t2)
+		bc.addV2("v2chain2", t1, t2)
+		return true
+	}}
+}
+
 // V2SF spends a siafund output with a v2 transaction.
 func V2SF(split bool) Action {
 	return Action{fmt.Sprintf("v2sf(split=%v)", split), func(bc *BlockCtx) bool {
@@ -473,6 +502,32 @@ func V2SF(split bool) Action {
 		w.SignV2(&txn)
 		bc.Used[types.Hash256(p.ID)] = true
 		bc.addV2("v2sf", txn)
+		return true
+	}}
+}
+
+// V2SFChain: a siafund transfer whose output is spent again (as an ephemeral parent) by the next transaction.
+// Only admissible below the network's ephemeral-output fix height.
+func V2SFChain() Action {
+	return Action{"v2sfchain", func(bc *BlockCtx) bool {
+		w := bc.W
+		if !bc.V2OK() || bc.H >= w.Net.HardforkV2.EphemeralOutputHeight {
+			return false
+		}
+		p, ok := bc.PickSF(func(c int) bool { return c == AddrV1 || c == AddrV2 || c == AddrV1b })
+		if !ok {
+			return false
+		}
+		t1 := types.V2Transaction{SiafundInputs: []types.V2SiafundInput{{Parent: p, ClaimAddress: w.Keys.Addr(AddrV2)}},
+			SiafundOutputs: []types.SiafundOutput{{Value: p.SiafundOutput.Value, Address: w.Keys.Addr(AddrV2)}}, ArbitraryData: bc.salt()}
+		w.SignV2(&t1)
+		eph := t1.EphemeralSiafundOutput(0)
+		eph.ClaimStart = w.CS.SiafundTaxRevenue // the honest value: nothing was collected in between
+		t2 := types.V2Transaction{SiafundInputs: []types.V2SiafundInput{{Parent: eph, ClaimAddress: w.Keys.Addr(AddrV2)}},
+			SiafundOutputs: []types.SiafundOutput{{Value: p.SiafundOutput.Value, Address: w.Keys.Addr(AddrV1)}}}
+		w.SignV2(&t2)
+		bc.Used[types.Hash256(p.ID)] = true
+		bc.addV2("v2sfchain", t1, t2)
 		return true
 	}}
 }
